@@ -36,12 +36,10 @@ void QXmppRpcManager::invokeInterfaceMethod(const QXmppRpcInvokeIq &iq)
     QXmppStanza::Error error;
 
     const QStringList methodBits = iq.method().split(u'.');
-    if (methodBits.size() != 2) {
-        return;
-    }
+    // a malformed method name is answered like an unknown interface (item-not-found)
     const QString interface = methodBits.first();
     const QString method = methodBits.last();
-    QXmppInvokable *iface = m_interfaces.value(interface);
+    QXmppInvokable *iface = methodBits.size() == 2 ? m_interfaces.value(interface) : nullptr;
     if (iface) {
         if (iface->isAuthorized(iq.from())) {
 
